@@ -45,7 +45,17 @@ class ForeignXmlGen:
     def value_child(self, parent, tag, nsmap, prefixes, default):
         """append one attribute element with a value in a randomly chosen spelling"""
         r = self.r
-        el = etree.SubElement(parent, q(tag, nsmap))
+        local = None
+        if tag != "prov:label" and r.random() < 0.08:
+            # the attribute element re-declares a prefix of its ancestors with another namespace URI
+            local = {"ex": "http://redeclared.example/ns#"}
+        el = etree.SubElement(parent, q(tag, nsmap), nsmap=local)
+        if local is not None:
+            if r.random() < 0.5:
+                el.set("{%s}type" % XSI, "ex:custom"); el.text = "abc"
+            else:
+                el.set("{%s}type" % XSI, "xsd:QName"); el.text = "ex:thing"
+            return
         if tag == "prov:label":
             if r.random() < 0.4:
                 el.set("{%s}lang" % XML, r.choice(["en", "fr"]))
@@ -71,7 +81,7 @@ class ForeignXmlGen:
         elif k < 0.92:
             el.set("{%s}lang" % XML, r.choice(["en", "fr"])); el.text = r.choice(["bonjour", "hello"])
         else:
-            el.set("{%s}type" % XSI, r.choice([prefixes[0] + ":custom", "xsd:gYear", "xsd:float"])); el.text = "abc"
+            el.set("{%s}type" % XSI, r.choice([prefixes[0] + ":custom", prefixes[-1] + ":custom", "xsd:gYear", "xsd:float"])); el.text = "abc"
 
     def record(self, parent, kind, nsmap, prefixes, default):
         r = self.r
@@ -115,8 +125,13 @@ class ForeignXmlGen:
         lmap = dict(nsmap)
         if default:
             lmap[None] = "http://default.example/"
-        root = etree.Element(q("prov:document", nsmap), nsmap=lmap)
         prefixes = ["ex", "tr"]
+        if r.random() < 0.3:
+            # a second prefix for a namespace URI that already has one
+            nsmap["ty"] = nsmap["ex"]
+            lmap["ty"] = nsmap["ex"]
+            prefixes.append("ty")
+        root = etree.Element(q("prov:document", nsmap), nsmap=lmap)
         for _ in range(r.randint(1, 5)):
             self.record(root, r.choice(list(KIND_FORMALS)), nsmap, prefixes, default)
         for i in range(r.choice([0, 0, 1, 2])):
